@@ -50,7 +50,7 @@ Print Assumptions C05_iffeature_conditions_independent.
 (* the conditions are sufficient, not necessary: `not (not not a)` violates the second one and compiles *)
 Example C05_conditions_not_necessary :
   let s := [110;111;116;32;40;110;111;116;32;110;111;116;32;97;41] in
-  not_cancel_adjacent s = false /\ compile_c lookup_abc true s = IOk ([13], [Some [97]], 1).
+  not_cancel_adjacent s = false /\ compile_c lookup_abc true s = IOk ([12], [Some [97]], 1).
 Proof. vm_compute. split; reflexivity. Qed.
 
 (* the hypotheses are satisfiable by non-trivial strings, accepted and rejected ones:
@@ -60,6 +60,6 @@ Example C05_hypotheses_satisfiable :
   let s2 := [40;97;32;97;110;100;41;32;110;111;116;32;120;32;40] in
   (depth_nonneg (cstr s1) 0, not_cancel_adjacent (cstr s1), rp_sep (cstr s1)) = (true, true, true) /\
   (depth_nonneg (cstr s2) 0, not_cancel_adjacent (cstr s2), rp_sep (cstr s2)) = (true, true, true) /\
-  compile_c lookup_abc true s1 = IOk ([114; 62], [Some [97]; Some [98]; Some [99]], 3) /\
+  compile_c lookup_abc true s1 = IOk ([210; 60], [Some [97]; Some [98]; Some [99]], 3) /\
   compile_c lookup_abc true s2 = IErr E_PAREN.
 Proof. vm_compute. repeat split. Qed.
